@@ -91,9 +91,9 @@ func (r *Run) report(noEvidence bool) int {
 			continue
 		}
 		violations++
-		path := r.writeReplay(replayDir, it)
+		path, confirmed := r.writeReplay(replayDir, it)
 		suffix := ""
-		if it.Res.Model == "" || !it.replayed() {
+		if !confirmed {
 			suffix = " no-failing-input-found"
 		}
 		violLines = append(violLines, fmt.Sprintf("VIOLATION property=%s replay=%s obligation=%q status=%s%s", orAll(r.prop), path, key, st, suffix))
@@ -203,7 +203,6 @@ func (r *Run) report(noEvidence bool) int {
 	return 0
 }
 
-func (it *OblResult) replayed() bool { return false }
 
 func orAll(s string) string {
 	if s == "" {
@@ -224,7 +223,7 @@ func trustedBase() []string {
 	}
 }
 
-func (r *Run) writeReplay(dir string, it *OblResult) string {
+func (r *Run) writeReplay(dir string, it *OblResult) (string, bool) {
 	os.MkdirAll(dir, 0o755)
 	base := sanitize(it.Obl.Func + "__" + it.Obl.Name)
 	if len(base) > 120 {
@@ -247,9 +246,19 @@ func (r *Run) writeReplay(dir string, it *OblResult) string {
 		"query":      qpath,
 		"conflict":   it.Res.Conflict,
 	}
+	confirmed := false
+	if out, ok := r.replay(it, dir, base); ok {
+		rep["replay_input"] = out.Input
+		rep["replay_output"] = out.Output
+		rep["replay_test"] = out.TestFile
+		rep["replay_confirmed"] = out.Confirmed
+		confirmed = out.Confirmed
+	} else {
+		rep["replay"] = "no concrete input could be built from the solver answer for this obligation family"
+	}
 	data, _ := json.MarshalIndent(rep, "", " ")
 	os.WriteFile(path, data, 0o644)
-	return path
+	return path, confirmed
 }
 
 func firstN(s string, n int) string {
